@@ -7,7 +7,7 @@
 #
 import re
 
-from ural.patterns import URL_IN_TEXT_RE
+from ural.patterns import URL_IN_TEXT_RE, URL_WITH_PROTOCOL_RE
 
 IRRELEVANT_PUNCTUATION = set("!?#\"$%&'()*+,-.:;<=>@[\\]^_`{|}~…’‘`‛«»„‟“”-‐‒–—―−‑⁃,،、")
 
@@ -27,10 +27,17 @@ def urls_from_text(string):
         url = match.group(0)
         s = match.start()
 
+        markdown_target = False
+
         if s > 0 and string[s - 1] == "[":
             if "](" in url:
                 remainder, url = url.split("](", 1)
+                markdown_target = True
                 yield remainder.strip()
+
+        # NOTE: the target of a markdown link can be empty or not be an url
+        if markdown_target and not url:
+            continue
 
         last_punct = None
 
@@ -43,5 +50,8 @@ def urls_from_text(string):
 
         if i != stop:
             url = url[: i + 1]
+
+        if markdown_target and not URL_WITH_PROTOCOL_RE.match(url):
+            continue
 
         yield url
